@@ -42,6 +42,19 @@ class C15(XsProp):
             lim = rng.choice(['3000 400 300', '3000 400 300', '40 400 300', '3000 6 300', '3000 400 8', '- - -' if False else '5000 - -'])
             for (m, rec) in MODES:
                 cs.append(mode_case(h, m, rec, lim))
+        # every stack-growing primitive exactly at, one below and one above the stack limit (the limit is enforced inside the
+        # primitives, which branch on recording)
+        grow = ['dup', 'over', 'depth', '7', 'nil', 'true', '"s"', '|ff|', '1.5', '[ ]', '{ }', 'dup dup', 'over over', '2 0 do I loop',
+                '0 var v v v', ': f 1 2 ; f', '[ 1 2 ] foreach I loop', '1 2 rot', 'swap over', '#( 1 2 #)', '3 1 collect', '[ 1 2 ] unbox'
+                if False else '[ 1 2 ] 0 nth']
+        for L in range(1, 6):
+            for w in grow:
+                for fill in (L - 1, L):
+                    if fill < 2 and ('over' in w or 'rot' in w or 'swap' in w):
+                        continue
+                    h = hexsrc(' '.join(str(i) for i in range(fill)) + ' ' + w)
+                    for (m, rec) in MODES:
+                        cs.append(mode_case(h, m, rec, '3000 %d 300' % L))
         return cs
 
     @staticmethod
